@@ -31,6 +31,16 @@ def build(inp):
         except Exception as e:
             c.why = "decoded value is not fully readable / violates a type invariant: %r" % (e,)
         if c.why is None:
+            # content (read element by element) vs root / encoding: a fresh value with that content must agree
+            try:
+                fresh = to_py(t, content_of(t, x))
+                if fresh.hash_tree_root() != root:
+                    c.why = "decoded value's root differs from a fresh value with the same element-wise content"
+                elif not isinstance(se, E) and bytes(fresh.encode_bytes()) != se[0]:
+                    c.why = "decoded value's encoding differs from a fresh value with the same element-wise content"
+            except Exception as e:
+                c.why = "decoded value's content cannot be rebuilt into a value: %r" % (e,)
+        if c.why is None:
             if isinstance(root, E) or isinstance(se, E) or isinstance(re, E):
                 c.why = "decoded value cannot be hashed / re-encoded / re-decoded"
             elif re != root:
